@@ -22,7 +22,7 @@ GROUPS = {
     "dm": (True, "multi"), "um": (False, "multi"),
     "dw": (True, "weighted"), "uw": (False, "weighted"),
 }
-N_FAMILIES = {"dn": 1, "un": 1, "dl": 6, "ul": 6, "dm": 1, "um": 1, "dw": 2, "uw": 2}
+N_FAMILIES = {"dn": 1, "un": 1, "dl": 6, "ul": 6, "dm": 2, "um": 2, "dw": 2, "uw": 2}
 
 COMMON = ["resize", "clearEdges", "removeDuplicateEdges", "removeSelfLoops", "removeVertexFromEdgeList",
           "removeEdge", "addEdge"]
@@ -188,10 +188,14 @@ def record_traces(pid, scn, gh_exe, seed, histories, steps, nmax, families=None,
     fams = families if families is not None else range(N_FAMILIES[scn.group])
     for fam in fams:
         plan = {"group": scn.group, "family_index": fam, "seed": int(seed) * 1000 + fam, "histories": histories,
-                "steps": steps, "nmax": nmax, "ops": scn.ops, "labels": list(scn.labels),
-                "mults": list(scn.mults) + [3], "weights": [-1, 0, 2, 3], "forces": list(scn.forces),
+                "steps": steps, "nmax": nmax, "big_every": 4, "ops": scn.ops, "labels": sorted(set(list(scn.labels) + [0, 1, 2, 3])) if scn.kind == "labeled" else list(scn.labels),
+                # recorded executions also use values far outside the exhaustive alphabets
+                "mults": list(scn.mults) + ([3] if fam % 2 else [3, 255, 256, 70000]), "weights": [-1, 0, 2, 3] + ([1, 4, 5] if fam % 2 else [1000000, -70000]),
+                "forces": list(scn.forces),
                 "bad": ([0, 1, -1] if scn.bad else []), "kind": scn.kind, "directed": scn.directed,
-                "max_copies": max(scn.maxcopies, 1), "crash_note": os.path.join(d, "crash%d.json" % fam)}
+                "max_copies": max(scn.maxcopies, 1), "crash_note": os.path.join(d, "crash%d.json" % fam),
+                # multigraph family 1 counts in units of 2^30: a multiplicity above 3 units does not fit 32 bits
+                "mult_cap": 3 if (scn.kind == "multi" and fam % 2) else 0}
         planf = os.path.join(d, "plan%d.json" % fam)
         with open(planf, "w") as f:
             json.dump(plan, f)
@@ -253,7 +257,7 @@ class PairScenario:
     forces = (False,)
 
     def __init__(self, name, group, maxn, ops=None, labels=(0, 1), mults=(0, 1, 2), maxmult=2,
-                 weights="WeightSet2", walk=True, reps=2, workers=4):
+                 weights="WeightSetH", walk=True, reps=2, workers=4):
         self.name, self.group, self.maxn = name, group, maxn
         self.directed, self.kind = GROUPS[group]
         self.ops = list(ops) if ops is not None else [o for o in mutators(group, reciprocal=False)
